@@ -312,12 +312,29 @@ func (s *shardProc) dropRule() bool {
 	return s.parsedRule
 }
 
+// runningRule tells whether the file this Prometheus really runs - the generated file as it was at the last reload
+// that succeeded - has metric relabeling.  (Which targets it scrapes is taken from the file as it is, see promTargets:
+// what a refused target update leaves behind is C10's and C06's business in the single-process harnesses.)
+func (s *shardProc) runningRule() bool {
+	s.runMu.Lock()
+	data := s.running
+	s.runMu.Unlock()
+	cfg, err := config.Load(data, false, log.NewNopLogger())
+	if err != nil {
+		return false
+	}
+	for _, job := range cfg.ScrapeConfigs {
+		if len(job.MetricRelabelConfigs) > 0 {
+			return true
+		}
+	}
+	return false
+}
+
 // promTargets: what a Prometheus started on the generated file scrapes (expanded by the vendored library).
 func (s *shardProc) promTargets() []promTarget {
-	s.runMu.Lock()
-	data, ok := []byte(s.running), s.hasRunning
-	s.runMu.Unlock()
-	if !ok {
+	data, err := ioutil.ReadFile(s.out)
+	if err != nil {
 		return nil
 	}
 	if string(data) == s.parsedOf {
@@ -1130,7 +1147,7 @@ func runSys(c *sysCase) (vs []vkit.Violation, classes []string, infra error) {
 		s.mu.Lock()
 		rl := s.reloads
 		s.mu.Unlock()
-		if data, err := ioutil.ReadFile(s.out); rl == 0 && err == nil && strings.Contains(string(data), "_hash") {
+		if rl == 0 && len(s.promTargets()) > 0 {
 			add("C11/sys/prometheus-never-reloaded", "shard %d generated a configuration with targets but never asked its Prometheus to reload", i)
 		}
 		var cfg struct {
@@ -1170,8 +1187,8 @@ func runSys(c *sysCase) (vs []vkit.Violation, classes []string, infra error) {
 			s.runMu.Lock()
 			has := s.hasRunning
 			s.runMu.Unlock()
-			if has && s.dropRule() != rule {
-				add("C16/sys/in-sync-shard-runs-an-older-configuration", "shard %d reports the coordinator's configuration hash, but the configuration its Prometheus runs (generated file at the last reload that succeeded) has metric relabeling %v where the coordinator's has %v: a reload of its Prometheus failed, the sidecar reports the new hash all the same and is never sent the configuration again", i, s.dropRule(), rule)
+			if has && s.runningRule() != rule {
+				add("C16/sys/in-sync-shard-runs-an-older-configuration", "shard %d reports the coordinator's configuration hash, but the configuration its Prometheus runs (generated file at the last reload that succeeded) has metric relabeling %v where the coordinator's has %v: a reload of its Prometheus failed, the sidecar reports the new hash all the same and is never sent the configuration again", i, s.runningRule(), rule)
 				break
 			}
 		}
